@@ -72,27 +72,24 @@ theorem opSetslice_acc {cfg : Cfg} {s : State} {g : Id} {a b : Option Int} {xs :
 theorem opDelitem_acc {cfg : Cfg} {s : State} {g : Id} {k : Int} (h : (opDelitem cfg s g k).2.isError = false) :
     Spec.apply (abs s) (.delitem g k) = .ok (abs (opDelitem cfg s g k).1, some .none) ∧
       (opDelitem cfg s g k).2 = .none := by
-  unfold opDelitem at h ⊢
+  unfold opDelitem finishRemove at h ⊢
   simp only at h ⊢
-  have hc : (updateRecord cfg s g).children = s.children := (updateRecord_same cfg s g).children
-  rw [hc] at h ⊢
   cases hn : normIdx (s.children g).length k with
   | none => rw [hn] at h; cases h
   | some j =>
     have hn' : normIdx ((abs s).lists g).length k = some j := hn
     refine ⟨?_, ?_⟩
     · simp only [Spec.apply, hn']
-      rw [abs_setChildren_updateRecord]; rfl
+      rw [updateRecord_abs]; rfl
     · rfl
 
 theorem opDelslice_acc (cfg : Cfg) (s : State) (g : Id) (a b : Option Int) :
     Spec.apply (abs s) (.delslice g a b) = .ok (abs (opDelslice cfg s g a b).1, some .none) ∧
       (opDelslice cfg s g a b).2 = .none := by
-  unfold opDelslice
-  have hc : (updateRecord cfg s g).children = s.children := (updateRecord_same cfg s g).children
+  unfold opDelslice finishRemove
   refine ⟨?_, ?_⟩
   · simp only [Spec.apply]
-    rw [hc, abs_setChildren_updateRecord]; rfl
+    rw [updateRecord_abs]; rfl
   · rfl
 
 theorem warnRepr_abs (s : State) (x : Id) : abs (warnRepr s x).1 = abs s := by
